@@ -282,3 +282,52 @@ def conditions_at(fn, node, pm=None, within=None, normal=True, stop=()) -> List[
         e = expand(fn, g.test, stop=stop)
         out.append(e if br == "true" else negate(e))
     return out
+
+
+def possible_callees(fn, call: ast.Call) -> set:
+    """Names of the functions a call may reach: `f(...)` itself, or - when f is a local bound to a name, a conditional expression
+    of names or a dict/tuple selection of names - each of those (`kernel = a if flag else b; kernel(...)`)."""
+    f = call.func
+    out = {ast.unparse(f)}
+    if isinstance(f, ast.Name):
+        todo = [v for _, v in assignments(fn).get(f.id, []) if v is not None]
+        seen = 0
+        while todo and seen < 32:
+            seen += 1
+            v = todo.pop()
+            if isinstance(v, (ast.Name, ast.Attribute)):
+                out.add(ast.unparse(v))
+            elif isinstance(v, ast.IfExp):
+                todo += [v.body, v.orelse]
+            elif isinstance(v, ast.BoolOp):
+                todo += list(v.values)
+            elif isinstance(v, ast.Subscript) and isinstance(v.value, (ast.Dict, ast.Tuple, ast.List)):
+                todo += list(v.value.values if isinstance(v.value, ast.Dict) else v.value.elts)
+    return out
+
+
+def reaching_defs(fn: ast.AST, name: str, at: ast.stmt, cfg=None) -> List[Tuple[ast.stmt, Optional[ast.expr]]]:
+    """Like reaching_values, with the defining statement: [(stmt, value or None)] of the definitions of `name` that reach `at`."""
+    from .cfg import build_cfg
+    cfg = cfg or build_cfg(fn)
+    defs = assignments(fn).get(name, [])
+    try:
+        target = cfg.node_of(at).id
+    except Exception:
+        return list(defs)
+    ids = []
+    for st, v in defs:
+        try:
+            ids.append((cfg.node_of(st).id, st, v))
+        except Exception:
+            ids.append((None, st, v))
+    out = []
+    for nid, st, v in ids:
+        if nid is None:
+            out.append((st, v))
+            continue
+        others = {i for i, _, _ in ids if i is not None and i != nid and i != target}
+        start = [s_ for s_, _ in cfg.succ[nid]]
+        if any(s_ == target or cfg.path(s_, target, skip=others, skip_edges=("exc",)) is not None for s_ in start if s_ not in others):
+            out.append((st, v))
+    return out
